@@ -173,12 +173,10 @@ func (r *Run) Finish() {
 		}
 	}
 	if p := os.Getenv("VERIF_DUMP_FINDINGS"); p != "" {
-		// development aid only (never set by registered commands): list unlisted failing keys for manual classification
+		// development aid only (never set by registered commands): list all failing keys of this run for manual classification
 		var fl []Finding
 		for _, k := range keys {
-			if _, ok := known[k]; !ok {
-				fl = append(fl, Finding{Property: r.ID, Key: k, Status: "open", What: oneLine(byKey[k][0].What)})
-			}
+			fl = append(fl, Finding{Property: r.ID, Key: k, Status: "open", What: oneLine(byKey[k][0].What)})
 		}
 		b, _ := json.MarshalIndent(map[string]interface{}{"findings": fl}, "", " ")
 		os.WriteFile(p, b, 0o644)
